@@ -56,6 +56,13 @@ def filters(thorough):
                 fs.append((ka + "&" + kb, T.binop("And", a, b)))
                 fs.append((kb + "&" + ka, T.binop("And", b, a)))
                 fs.append((ka + "|!" + kb, T.binop("Or", a, T.unop("Not", b))))
+            if root == "Post":
+                # the two same-NAMED relationships (Post.owner -> City, Blog.owner -> Person) in one filter, both orders
+                o_city = T.binop("Eq", T.path("owner", "name"), T.Str("c1"))
+                o_pers = T.binop("Eq", T.path("blog", "owner", "name"), T.Str("p1"))
+                o_age = T.binop("Eq", T.path("blog", "owner", "age"), T.NULL)
+                for a_, b_ in ((o_city, o_pers), (o_pers, o_city), (o_city, o_age), (o_age, o_city)):
+                    fs += [("same-name&", T.binop("And", a_, b_)), ("same-name|", T.binop("Or", a_, b_)), ("same-name|!", T.binop("Or", T.unop("Not", a_), b_))]
             # three distinct relationships in one filter (and / or / not), strided
             for (ka, a), (kb, b), (kc, c) in list(zip(lams[::5], (paths[1::3] * 9)[:len(lams)], (paths[::4] * 9)[:len(lams)]))[:12]:
                 fs.append((ka + "&" + kb + "|" + kc, T.binop("Or", T.binop("And", a, b), c)))
